@@ -21,6 +21,17 @@ type Hierarchy struct {
 	// ImplicitTarget: csv2 / fixedlength2 only, and only when Top[0] is the target: `is_target` is not
 	// written (documented default: the first record/envelope is the target).
 	ImplicitTarget bool `json:"implicit_target,omitempty"`
+	// Pad (fixedlength2 only) > 0: every line starts with Pad dots, so that the record type code is not in column 1, and the
+	// header / footer / line_pattern regexes are written WITHOUT the '^' anchor (a line holds exactly one capital letter,
+	// its tag, so the unanchored literal matches the same lines, at offset Pad).
+	Pad int `json:"pad,omitempty"`
+}
+
+func (h Hierarchy) anchor() string {
+	if h.Format == "fixedlength2" && h.Pad > 0 {
+		return ""
+	}
+	return "^"
 }
 
 // HRender says how a unit sequence is written to bytes.
@@ -200,6 +211,9 @@ func DrawHierarchy(t *rapid.T, format string, o HierOpts) Hierarchy {
 	all[rapid.IntRange(0, len(all)-1).Draw(t, "target")].Target = true
 	if format != "edi" && h.Top[0].Target {
 		h.ImplicitTarget = rapid.Bool().Draw(t, "implicitTarget")
+	}
+	if format == "fixedlength2" {
+		h.Pad = rapid.SampledFrom([]int{0, 0, 0, 1, 3}).Draw(t, "pad")
 	}
 	return h
 }
@@ -475,21 +489,21 @@ func (h Hierarchy) declJSON(d *model.HDecl, top0 bool) hierObj {
 					o["rows"] = d.Rows
 				}
 			} else {
-				o["header"] = "^" + d.Tag
+				o["header"] = h.anchor() + d.Tag
 				if d.Footer != "" {
-					o["footer"] = "^" + d.Footer
+					o["footer"] = h.anchor() + d.Footer
 				}
 			}
 			var cols []hierObj
 			for i := 1; i <= d.Cols; i++ {
-				c := hierObj{"name": fmt.Sprintf("i%d", i), "start_pos": 2, "length": 3}
+				c := hierObj{"name": fmt.Sprintf("i%d", i), "start_pos": 2 + h.Pad, "length": 3}
 				if !(i == 1 && d.Cols == 1 && d.Rows <= 1 && d.Footer == "") {
 					c["line_index"] = i
 				}
 				cols = append(cols, c)
 			}
 			if d.LastCol {
-				cols = append(cols, hierObj{"name": "f", "start_pos": 2, "length": 3, "line_pattern": "^" + d.Footer})
+				cols = append(cols, hierObj{"name": "f", "start_pos": 2 + h.Pad, "length": 3, "line_pattern": h.anchor() + d.Footer})
 			}
 			o["columns"] = cols
 		}
@@ -546,7 +560,7 @@ func (h Hierarchy) UnitText(u model.HUnit) string {
 	case "csv2":
 		return u.Tag + "," + u.ID
 	default:
-		return u.Tag + u.ID
+		return strings.Repeat(".", h.Pad) + u.Tag + u.ID
 	}
 }
 
